@@ -698,6 +698,266 @@ theorem pullAll_eq {q : Query} {choose : List Cursor → Nat} (hc : MinChoice q 
       simp only []
       rw [if_neg hres, hrec]
 
+/-! ### the columnar read path: `PullBatch` / `mergeBatch` (repaired cut, F57) -/
+
+/-- the row a further row is compared with after `keepLoop last a` -/
+def lastKept (last : Option Row) (a : List Row) : Option Row := ((keepLoop last a).getLast?).or last
+
+/-- a sorted sequence may be cut anywhere except inside a run of equal keys: if the row after the cut is
+    not another copy of the last kept row, de-duplicating the two pieces separately is the same -/
+theorem keepLoop_append_cut (b : List Row) :
+    ∀ (a : List Row) (last : Option Row),
+      (∀ t rest, b = t :: rest → ∀ l, lastKept last a = some l → ¬ SameKey l t) →
+      keepLoop last (a ++ b) = keepLoop last a ++ keepLoop none b := by
+  intro a
+  induction a with
+  | nil =>
+    intro last hb
+    cases last with
+    | none => simp [keepLoop]
+    | some l =>
+      cases b with
+      | nil => simp [keepLoop]
+      | cons t rest =>
+        have : ¬ SameKey l t := hb t rest rfl l (by simp [lastKept, keepLoop])
+        simp [keepLoop, this]
+  | cons x xs ih =>
+    intro last hb
+    have hcons : ∀ (L : List Row), ((x :: L).getLast?).or last = (L.getLast?).or (some x) := by
+      intro L
+      rw [List.getLast?_cons]
+      cases L.getLast? <;> simp
+    cases last with
+    | none =>
+      simp only [List.cons_append, keepLoop]
+      rw [ih (some x)]
+      intro t rest hbt l hl
+      refine hb t rest hbt l ?_
+      simp only [lastKept, keepLoop]
+      rw [hcons]; exact hl
+    | some l0 =>
+      simp only [List.cons_append, keepLoop]
+      split
+      · rename_i hs
+        refine ih (some l0) ?_
+        intro t rest hbt l hl
+        refine hb t rest hbt l ?_
+        simp only [lastKept, keepLoop, if_pos hs]
+        exact hl
+      · rename_i hs
+        rw [ih (some x)]
+        · rfl
+        · intro t rest hbt l hl
+          refine hb t rest hbt l ?_
+          simp only [lastKept, keepLoop, if_neg hs]
+          rw [hcons]; exact hl
+
+theorem batchDup_of_none {res : List Row} (t : Row) (h : res.getLast? = none) : batchDup res t = false := by
+  simp [batchDup, h]
+
+theorem batchDup_of_some {res : List Row} (t : Row) {l : Row} (h : res.getLast? = some l) :
+    batchDup res t = decide (t.ts = l.ts) := by
+  simp [batchDup, h]
+
+/-- one `mergeBatch` call (repaired cut): it consumes a prefix `seg` of the popped sequence, emits that prefix
+    de-duplicated, and stops only where the next row to pop is not another copy of the row emitted last -/
+theorem mergeBatchPull_spec {q : Query} {choose : List Cursor → Nat} (hc : MinChoice q choose) (maxRows : Nat) :
+    ∀ (n : Nat) (cs : List Cursor) (st : PullSt) (F : Nat), ValidCursors q cs → PInv q cs st →
+      (st.result = [] → st.lastSid = 0) → totalRows cs ≤ n → totalRows cs ≤ F →
+      ∃ seg cs', mergeBatchPull q choose maxRows true n cs st = (st.result ++ keepLoop st.result.getLast? seg, cs') ∧
+        popAll choose F cs = seg ++ popAll choose F cs' ∧ ValidCursors q cs' ∧
+        totalRows cs' + seg.length = totalRows cs ∧
+        (∀ t rest, popAll choose F cs' = t :: rest →
+          ∀ l, (st.result ++ keepLoop st.result.getLast? seg).getLast? = some l → ¬ SameKey l t) ∧
+        (seg = [] → st.lastSid ≠ 0 ∨ cs = [] ∨ st.result.length ≥ maxRows) := by
+  intro n
+  induction n with
+  | zero =>
+    intro cs st F hv _ _ hn _
+    have : cs = [] := validCursors_totalRows_zero hv (by omega)
+    subst this
+    refine ⟨[], [], ?_, by simp, hv, by simp, ?_, fun _ => Or.inr (Or.inl rfl)⟩
+    · cases h : st.result.getLast? <;> simp [mergeBatchPull, keepLoop]
+    · intro t rest h; rw [popAll_nil] at h; simp at h
+  | succ n ih =>
+    intro cs st F hv hp he hn hF
+    by_cases hne : cs = []
+    · subst hne
+      refine ⟨[], [], ?_, by simp, hv, by simp, ?_, fun _ => Or.inr (Or.inl rfl)⟩
+      · cases h : st.result.getLast? <;> simp [mergeBatchPull, keepLoop]
+      · intro t rest h; rw [popAll_nil] at h; simp at h
+    · obtain ⟨t, rest, hget, hmin⟩ := hc cs hv hne
+      have htot := totalRows_advance hget
+      have htmem : t ∈ cs.flatten := List.mem_flatten.2 ⟨_, List.mem_of_getElem? hget, List.mem_cons_self⟩
+      have htv := (hv _ (List.mem_of_getElem? hget)).sids t List.mem_cons_self
+      have hF1 : ∃ F', F = F' + 1 := ⟨F - 1, by omega⟩
+      obtain ⟨F', rfl⟩ := hF1
+      have hpop : popAll choose (F' + 1) cs = t :: popAll choose (F' + 1) (advance cs (choose cs)) := by
+        conv => lhs; unfold popAll
+        rw [if_neg hne, hget]
+        simp only []
+        rw [popAll_fuel hc F' (F' + 1) _ (validCursors_advance hv hget) (by omega) (by omega)]
+      have hnil : ∀ o : Option Row, keepLoop o [] = [] := by intro o; cases o <;> rfl
+      unfold mergeBatchPull
+      rw [if_neg hne]
+      rw [if_neg (by simp : ¬ (true = false ∧ st.result.length ≥ maxRows))]
+      simp only []
+      rw [hget]
+      simp only []
+      by_cases hbnd : st.lastSid ≠ 0 ∧ t.sid ≠ st.lastSid
+      · rw [if_pos hbnd]
+        refine ⟨[], cs, by rw [hnil]; simp, by simp, hv, by simp, ?_, fun _ => Or.inl hbnd.1⟩
+        intro t' rest' hpe l hl
+        rw [hpop] at hpe
+        have ht' : t = t' := by simp at hpe; exact hpe.1
+        subst ht'
+        rw [hnil, List.append_nil] at hl
+        obtain ⟨hl1, _⟩ := hp.last l hl
+        intro hs
+        exact hbnd.2 (by rw [hl1]; exact hs.1.symm)
+      · rw [if_neg hbnd]
+        by_cases hfull : True ∧ st.result.length ≥ maxRows ∧ batchDup st.result t = false
+        · rw [if_pos hfull]
+          refine ⟨[], cs, by rw [hnil]; simp, by simp, hv, by simp, ?_, fun _ => Or.inr (Or.inr hfull.2.1)⟩
+          intro t' rest' hpe l hl
+          rw [hpop] at hpe
+          have ht' : t = t' := by simp at hpe; exact hpe.1
+          subst ht'
+          rw [hnil, List.append_nil] at hl
+          have hd := hfull.2.2
+          rw [batchDup_of_some t hl] at hd
+          intro hs
+          simp at hd
+          exact hd hs.2.symm
+        · rw [if_neg hfull]
+          have hva := validCursors_advance hv hget
+          have hrem := remaining_ge hv hget hmin
+          cases hlast : st.result.getLast? with
+          | none =>
+            have hres : st.result = [] := List.getLast?_eq_none_iff.1 hlast
+            rw [batchDup_of_none t hlast]
+            simp only [hres, List.nil_append, Bool.false_eq_true, if_false]
+            have hp2 : PInv q (advance cs (choose cs)) { st with lastSid := t.sid, result := [t], lastVersion := t.ver } := by
+              refine ⟨fun l hl => ?_⟩
+              simp at hl; subst hl
+              exact ⟨rfl, htv.1, rfl, htv.2, hrem⟩
+            obtain ⟨seg, cs', h1, h2, h3, h4, h5, _⟩ :=
+              ih (advance cs (choose cs)) { st with lastSid := t.sid, result := [t], lastVersion := t.ver } (F' + 1)
+                hva hp2 (by simp) (by omega) (by omega)
+            have heq : keepLoop none (t :: seg) = [t] ++ keepLoop ([t] : List Row).getLast? seg := by simp [keepLoop]
+            refine ⟨t :: seg, cs', ?_, ?_, h3, by simp; omega, ?_, by simp⟩
+            · rw [h1, heq]
+            · rw [hpop, h2]; rfl
+            · rw [heq]; exact h5
+          | some l =>
+            obtain ⟨hl1, hl2, hl3, hl4, hl5⟩ := hp.last l hlast
+            have htsid : t.sid = l.sid := by
+              by_cases h : t.sid = st.lastSid
+              · rw [h, hl1]
+              · exact absurd ⟨by rw [hl1]; exact hl2, h⟩ hbnd
+            rw [batchDup_of_some t hlast]
+            by_cases hts : t.ts = l.ts
+            · have hsame : SameKey l t := ⟨htsid.symm, hts.symm⟩
+              have hver : ¬ (t.ver > st.lastVersion) := by
+                rw [hl3]
+                rcases not_rowLess q hl4 htv.2 (hl5 t htmem) with h | h
+                · exact absurd hsame (Kq_not_same q _ _ h)
+                · omega
+              simp only [hts, decide_true, if_true, if_neg hver]
+              have hp2 : PInv q (advance cs (choose cs)) { st with lastSid := t.sid } := by
+                refine ⟨fun l' hl' => ?_⟩
+                simp only [] at hl'
+                rw [hlast] at hl'
+                simp at hl'; subst hl'
+                exact ⟨htsid, hl2, hl3, hl4, fun y hy => hl5 y (mem_flatten_advance hget y hy)⟩
+              obtain ⟨seg, cs', h1, h2, h3, h4, h5, _⟩ :=
+                ih (advance cs (choose cs)) { st with lastSid := t.sid } (F' + 1) hva hp2
+                  (fun h => by simp only [] at h; rw [h] at hlast; simp at hlast) (by omega) (by omega)
+              have heq : keepLoop (some l) (t :: seg) = keepLoop (some l) seg := by
+                simp only [keepLoop, if_pos hsame]
+              simp only [hlast] at h1 h5
+              refine ⟨t :: seg, cs', ?_, ?_, h3, by simp; omega, ?_, by simp⟩
+              · rw [h1, heq]
+              · rw [hpop, h2]; rfl
+              · rw [heq]; exact h5
+            · have hnsame : ¬ SameKey l t := fun h => hts h.2.symm
+              simp only [hts, decide_false, Bool.false_eq_true, if_false]
+              have hp2 : PInv q (advance cs (choose cs))
+                  { st with lastSid := t.sid, result := st.result ++ [t], lastVersion := t.ver } := by
+                refine ⟨fun l' hl' => ?_⟩
+                simp at hl'; subst hl'
+                exact ⟨rfl, htv.1, rfl, htv.2, hrem⟩
+              obtain ⟨seg, cs', h1, h2, h3, h4, h5, _⟩ :=
+                ih (advance cs (choose cs)) { st with lastSid := t.sid, result := st.result ++ [t], lastVersion := t.ver }
+                  (F' + 1) hva hp2 (by simp) (by omega) (by omega)
+              have heq : st.result ++ keepLoop (some l) (t :: seg) =
+                  (st.result ++ [t]) ++ keepLoop (st.result ++ [t]).getLast? seg := by
+                simp only [List.getLast?_append, List.getLast?_singleton, Option.some_or, keepLoop, if_neg hnsame,
+                  List.append_assoc, List.singleton_append]
+              refine ⟨t :: seg, cs', ?_, ?_, h3, by simp; omega, ?_, by simp⟩
+              · rw [h1, heq]
+              · rw [hpop, h2]; rfl
+              · rw [heq]; exact h5
+
+/-- all `PullBatch()` results, flattened = first row of every run of equal keys of the popped sequence:
+    the same rows as the row path (`pullAll_eq`) -/
+theorem pullAllBatch_eq {q : Query} {choose : List Cursor → Nat} (hc : MinChoice q choose) {maxRows : Nat}
+    (hm : 0 < maxRows) :
+    ∀ (fuel : Nat) (cs : List Cursor) (F : Nat), ValidCursors q cs → totalRows cs < fuel → totalRows cs ≤ F →
+      pullAllBatch q choose maxRows true fuel cs = keepLoop none (popAll choose F cs) := by
+  intro fuel
+  induction fuel with
+  | zero => intro cs F _ h _; omega
+  | succ fuel ih =>
+    intro cs F hv hf hF
+    match cs, hv, hf, hF with
+    | [], _, _, _ => simp [pullAllBatch, popAll_nil, keepLoop]
+    | [c], hv, _, hF =>
+      have hlen : c.length ≤ F := by simpa [totalRows] using hF
+      rw [popAll_single hc F c hv hlen]
+      rw [keepLoop_none_of_pairwise (Kq_not_same q) c (hv c List.mem_cons_self).mono]
+      rfl
+    | c1 :: c2 :: rest, hv, hf, hF =>
+      have hp0 : PInv q (c1 :: c2 :: rest) ({} : PullSt) := ⟨fun l hl => by simp at hl⟩
+      obtain ⟨seg, cs', h1, h2, h3, h4, h5, h8⟩ :=
+        mergeBatchPull_spec hc maxRows (totalRows (c1 :: c2 :: rest) + 1) (c1 :: c2 :: rest) {} F hv hp0 (fun _ => rfl)
+          (by omega) hF
+      have hsegne : seg ≠ [] := by
+        intro h
+        rcases h8 h with h | h | h
+        · exact h rfl
+        · simp at h
+        · simp at h; omega
+      have hres : keepLoop none seg ≠ [] := by
+        cases seg with
+        | nil => exact absurd rfl hsegne
+        | cons t _ => simp [keepLoop]
+      have hlen : seg.length ≥ 1 := by
+        cases seg with
+        | nil => exact absurd rfl hsegne
+        | cons _ _ => simp
+      have hrec := ih cs' F h3 (by omega) (by omega)
+      have hk := keepLoop_append_cut (popAll choose F cs') seg none (by
+        intro t rest' hpe l hl
+        refine h5 t rest' hpe l ?_
+        simpa [lastKept] using hl)
+      rw [h2, hk]
+      unfold pullAllBatch
+      simp only []
+      have hmb : mergeBatchPull q choose maxRows true (totalRows (c1 :: c2 :: rest) + 1) (c1 :: c2 :: rest) {} =
+          (keepLoop none seg, cs') := by
+        rw [h1]; rfl
+      rw [hmb]
+      simp only []
+      rw [if_neg hres, hrec]
+
+/-- the two read paths return the same rows -/
+theorem pullAllBatch_eq_pullAll {q : Query} {choose : List Cursor → Nat} (hc : MinChoice q choose) {maxRows : Nat}
+    (hm : 0 < maxRows) (cs : List Cursor) (hv : ValidCursors q cs) :
+    pullAllBatch q choose maxRows true (totalRows cs + 1) cs = pullAll q choose (totalRows cs + 1) cs := by
+  rw [pullAllBatch_eq hc hm _ _ (totalRows cs) hv (by omega) (Nat.le_refl _),
+    pullAll_eq hc _ _ (totalRows cs) hv (by omega) (Nat.le_refl _)]
+
 /-! ### the linear-scan root of the executable model is a heap root -/
 
 theorem rowLess_trans (q : Query) {a b c : Row} (h1 : rowLess q a b = true) (h2 : rowLess q b c = true) :
